@@ -1,4 +1,5 @@
 (* Props/C10.v — property C10: panics in user code are contained and reported. *)
+From CV Require Proofs.ReviewP5 Proofs.SchedP13 Proofs.SchedP7 Proofs.SchedP4 Proofs.SchedP8 Proofs.SchedP10 Model.Contract.
 From CV Require Proofs.ReviewP Model.Sched.
 From CV Require Import Model.Base Model.Events Model.Attempt Model.AttemptSpec Proofs.BaseP Proofs.AttemptP.
 
@@ -54,3 +55,75 @@ Theorem C10_panic_hook_untouched_before_the_first_turn :
     Sched.pc s = Sched.NotBegun /\ Sched.hook_suppressed s = false.
 Proof. exact ReviewP.hook_untouched_before_first_turn. Qed.
 Print Assumptions C10_panic_hook_untouched_before_the_first_turn.
+
+
+(* ---------- THE OTHER RUN-LEVEL CLAUSES (second review, M4): the invariant above holds by construction of a field that only
+   loop turns write; what the property says at run level is more. ---------- *)
+
+(* "nothing is printed while the run is in progress": every label of every attempt — its start, its events, its end, whatever
+   its flag — happens while the process panic hook is replaced, and the hook is still replaced after it *)
+Theorem C10_attempts_run_only_while_the_panic_hook_is_replaced :
+  forall c l1 l l2 s tr s1 tr1,
+    Sched.exec c (l1 ++ l :: l2) = Some (s, tr) -> ReviewP5.is_att_label l = true -> Sched.exec c l1 = Some (s1, tr1) ->
+    Sched.hook_suppressed s1 = true /\
+    exists s2 o, Sched.step c s1 l = Some (s2, o) /\ Sched.exec c (l1 ++ [l]) = Some (s2, tr1 ++ o) /\
+                 Sched.hook_suppressed s2 = true.
+Proof. exact ReviewP5.attempt_labels_only_while_hook_replaced. Qed.
+Print Assumptions C10_attempts_run_only_while_the_panic_hook_is_replaced.
+
+(* "other scenarios are unaffected", one step: the end of attempt k — failed or not — changes the running entry of no other
+   attempt, emits the same event for either flag, differs between the two flags only in the finished-message and the retry queue,
+   and leaves every enabled label of another attempt enabled with the same events *)
+Theorem C10_a_failed_end_differs_from_a_passed_one_only_in_message_and_queue :
+  forall c s k b s1 o, Sched.step c s (Sched.LAttEnd k b) = Some (s1, o) ->
+    forall b', exists s2, Sched.step c s (Sched.LAttEnd k b') = Some (s2, o) /\
+      Sched.running s2 = Sched.running s1 /\ Sched.fcount s2 = Sched.fcount s1 /\ Sched.rcount s2 = Sched.rcount s1 /\
+      Sched.now s2 = Sched.now s1 /\ Sched.pc s2 = Sched.pc s1 /\ Sched.flow s2 = Sched.flow s1 /\
+      Sched.hook_suppressed s2 = Sched.hook_suppressed s1 /\ Sched.pdone s2 = Sched.pdone s1 /\
+      Sched.perrs s2 = Sched.perrs s1 /\ Sched.pf s2 = Sched.pf s1.
+Proof. exact ReviewP5.att_end_flag_only_changes_message_and_queue. Qed.
+Print Assumptions C10_a_failed_end_differs_from_a_passed_one_only_in_message_and_queue.
+
+Theorem C10_other_attempts_stay_enabled_across_a_failed_end :
+  forall c s k b s1 o l k' s2 o2,
+    Sched.step c s (Sched.LAttEnd k b) = Some (s1, o) -> ReviewP5.att_key l = Some k' -> k' <> k ->
+    Sched.step c s l = Some (s2, o2) -> exists s3, Sched.step c s1 l = Some (s3, o2).
+Proof. exact ReviewP5.att_end_keeps_other_attempts_enabled. Qed.
+Print Assumptions C10_other_attempts_stay_enabled_across_a_failed_end.
+
+(* ... whole runs: flip the flag of ONE attempt's end; the labels of every other attempt that was in flight at that moment are
+   accepted in both runs and emit the same events up to their own Finished (what is dispatched LATER may differ: the flipped run
+   may retry k or trip fail-fast — ReviewP5.exB5_flip_dispatches_a_retry, exB6_flip_trips_fail_fast) *)
+Theorem C10_flipping_one_failed_flag_leaves_the_attempts_in_flight_unaffected :
+  forall c l1 k b b' l2 l2' s1 h1 s h s' h',
+    SchedP13.run c l1 = Some (s1, h1) ->
+    SchedP13.run c (l1 ++ Sched.LAttEnd k b :: l2) = Some (s, h) ->
+    SchedP13.run c (l1 ++ Sched.LAttEnd k b' :: l2') = Some (s', h') ->
+    let live := ReviewP5.others_in_flight s1 k in
+    ReviewP5.proj live l2 = ReviewP5.proj live l2' ->
+    exists o h2 h2', h = h1 ++ (Sched.LAttEnd k b, o) :: h2 /\ h' = h1 ++ (Sched.LAttEnd k b', o) :: h2' /\
+                     ReviewP5.projh live h2 = ReviewP5.projh live h2' /\
+                     SchedP13.out_of (ReviewP5.projh live h2) = SchedP13.out_of (ReviewP5.projh live h2').
+Proof. exact ReviewP5.flip_failed_flag_others_unaffected. Qed.
+Print Assumptions C10_flipping_one_failed_flag_leaves_the_attempts_in_flight_unaffected.
+
+(* "and the run still ends with run-Finished": a run that has ended is complete — contract, exactly one run-Finished, last, the
+   hook back — whatever the flags of its attempts; and from every state after the parser's end the run CAN be driven to Done
+   with EVERY attempt panicking (`fl` = the flags), within the turn bound of C04 *)
+Theorem C10_an_ended_run_is_complete_whatever_panicked :
+  forall cf ls s tr,
+    Sched.exec cf ls = Some (s, tr) -> Sched.pc s = Sched.Done ->
+    NoDup (SchedP7.feature_ids ls) -> NoDup (SchedP4.inserted_ids ls) ->
+    Contract.contract tr = true /\ (exists p, tr = p ++ [EvFinished] /\ ~ In EvFinished p) /\ Sched.hook_suppressed s = false.
+Proof. exact ReviewP5.ended_run_is_complete_whatever_the_flags. Qed.
+Print Assumptions C10_an_ended_run_is_complete_whatever_panicked.
+
+Theorem C10_the_run_can_end_whatever_panics :
+  forall c fl ls0 s0 tr0,
+    Sched.exec c ls0 = Some (s0, tr0) -> Sched.pdone s0 = true -> Sched.cf_concurrency c <> Some 0%nat ->
+    exists ls s tr,
+      Forall (ReviewP5.drive_ok fl) ls /\ Sched.exec c (ls0 ++ ls) = Some (s, tr0 ++ tr) /\ Sched.pc s = Sched.Done /\
+      N.of_nat (SchedP10.tops ls) <= 3 * SchedP8.pot (fun _ => true) s0 + N.of_nat (length (Sched.running s0)) + 3 /\
+      (exists p, tr0 ++ tr = p ++ [EvFinished] /\ ~ In EvFinished p) /\ Sched.hook_suppressed s = false.
+Proof. exact ReviewP5.run_can_be_driven_to_done_whatever_the_flags. Qed.
+Print Assumptions C10_the_run_can_end_whatever_panics.
